@@ -98,6 +98,22 @@ structure Def where
   raw : BStr                        -- the source line, whitespace-normalised, without the `;`
   deriving Repr
 
+/-- the parameters that carry a value (everything but `flags:#` and `{X:Type}`) -/
+def valueParams (ps : List Param) : List Param :=
+  ps.filter fun p => match p.ty with
+    | .flagsWord => false
+    | .typeParam _ => false
+    | _ => true
+
+/-- how many value parameters precede `flags:#` (none when the definition has no flags word) -/
+def flagsPos : List Param → Nat → Option Nat
+  | [], _ => none
+  | p :: ps, n =>
+    match p.ty with
+    | .flagsWord => some n
+    | .typeParam _ => flagsPos ps n
+    | _ => flagsPos ps (n + 1)
+
 def renderTy : STy → BStr
   | .flagsWord => bHash
   | .prim n => n
